@@ -37,6 +37,9 @@ CHECKS = {
     "C05": ("Hypothesis-generated degenerate / unrelated / boundary sub-volumes x max_shifts classes (0, <0.75, off-grid, integer, > box, anisotropic) x models x rotation sets; loader-level routes with scalar/tuple/list/numpy-scalar limits; enumerated max_shifts spellings",
             "Generated-input exploration with a validity oracle: no exception, finite shift and score, |shift_i| <= max_shifts_i (model level) and displacement along the input molecule's own axes within max_shifts (loader level, all five alignment routes).",
             "FSC limited to max_shifts <= 3 px / boxes <= 10; rotation sets contain the identity; 0-d numpy arrays are not treated as a documented max_shifts spelling", "4/C05"),
+    "C07": ("Hypothesis-generated image pairs / masks / cutoffs / tilt models vs a float64 reference pipeline (mask, Butterworth, wedge, Pearson or cosine); metamorphic gain/offset invariance; differential score == landscape centre == zero-range align; landscape arg-max vs align shift on planted peaks; loader rows vs model",
+            "Generated-input exploration with a reference-model oracle (2e-4), metamorphic invariances and differential agreement between score, landscape and align for the normalised models; loader.score / construct_landscape rows against the model applied to subtomogram i.",
+            "the wedge mask in the reference is the model's own (geometry is C08's); planted peaks >= 0.6 px inside the range with mild noise; FSC agreement limited to boxes <= 10", "4/C07"),
 }
 
 NOT_YET = {}
